@@ -71,6 +71,26 @@ CHECKS = {
         "model equality / deep type.",
         "DESIGN.md section 5 C08",
     ),
+    "C09": (
+        "exhaustive enumeration of native names x aliases, module symbols x "
+        "import forms and flag-assignment forms, plus Hypothesis-generated "
+        "compositions, under an OS-access monitor (audit hook + wrappers + "
+        "canary directory) with a dynamically discovered ground truth of "
+        "dangerous natives and a twin non-secure run as teeth check",
+        "Every native name known to the binder (bind / alias / inside a "
+        "function), every public symbol of every bundled module in the three "
+        "import forms, and about 350 programs that try to redefine or shadow "
+        "the secure flag before binding are run in fresh secure interpreters "
+        "(legacy and non-legacy) inside a canary directory; any monitored OS "
+        "access other than reading module sources, any change of the canary, "
+        "any reachable function of a dangerous class, or a changed base flag "
+        "is a violation. A universal negative cannot be proved by search: "
+        "exhaustive over names and forms, sampled over compositions.",
+        "Trusted: the monitor (validated on every run: it must flag the 11 "
+        "known OS-touching natives in a non-secure interpreter, else harness "
+        "error); permitted accesses are *.ckl / Python import / tz files.",
+        "DESIGN.md section 5 C09",
+    ),
     "C12": (
         "differential testing across fresh processes with different "
         "PYTHONHASHSEED values + in-process metamorphic testing (permuted "
